@@ -303,6 +303,7 @@ template <class V> struct Sp
     V (*fn) (const V&, const V&, typename V::BaseType);
 };
 
+// compound forms are judged through the reference they return (it must be the modified *this)
 #define C04_L(body) [] (const V& a, const V& b, T s) -> V { (void) a; (void) b; (void) s; body }
 
 // Vec2/3/4, Color3, Color4, Shear6: the full set of component-wise spellings
@@ -311,24 +312,24 @@ template <class V> inline std::vector<Sp<V>> veclike_spellings ()
     typedef typename V::BaseType T;
     return {
         {"operator+", ADD, VV, C04_L (return V (a + b);)},
-        {"operator+=", ADD, VV, C04_L (V x (a); x += b; return x;)},
-        {"operator+=(self)", ADD, SELF, C04_L (V x (a); x += x; return x;)},
+        {"operator+=", ADD, VV, C04_L (V x (a); return V (x += b);)},
+        {"operator+=(self)", ADD, SELF, C04_L (V x (a); return V (x += x);)},
         {"operator-", SUB, VV, C04_L (return V (a - b);)},
-        {"operator-=", SUB, VV, C04_L (V x (a); x -= b; return x;)},
-        {"operator-=(self)", SUB, SELF, C04_L (V x (a); x -= x; return x;)},
+        {"operator-=", SUB, VV, C04_L (V x (a); return V (x -= b);)},
+        {"operator-=(self)", SUB, SELF, C04_L (V x (a); return V (x -= x);)},
         {"operator*(V,V)", MUL, VV, C04_L (return V (a * b);)},
-        {"operator*=(V)", MUL, VV, C04_L (V x (a); x *= b; return x;)},
-        {"operator*=(self)", MUL, SELF, C04_L (V x (a); x *= x; return x;)},
+        {"operator*=(V)", MUL, VV, C04_L (V x (a); return V (x *= b);)},
+        {"operator*=(self)", MUL, SELF, C04_L (V x (a); return V (x *= x);)},
         {"operator/(V,V)", DIV, VV, C04_L (return V (a / b);)},
-        {"operator/=(V)", DIV, VV, C04_L (V x (a); x /= b; return x;)},
-        {"operator/=(self)", DIV, SELF, C04_L (V x (a); x /= x; return x;)},
+        {"operator/=(V)", DIV, VV, C04_L (V x (a); return V (x /= b);)},
+        {"operator/=(self)", DIV, SELF, C04_L (V x (a); return V (x /= x);)},
         {"operator*(V,T)", MUL, VS, C04_L (return V (a * s);)},
-        {"operator*=(T)", MUL, VS, C04_L (V x (a); x *= s; return x;)},
+        {"operator*=(T)", MUL, VS, C04_L (V x (a); return V (x *= s);)},
         {"operator*(T,V)", MUL, SV, C04_L (return V (s * a);)},
         {"operator/(V,T)", DIV, VS, C04_L (return V (a / s);)},
-        {"operator/=(T)", DIV, VS, C04_L (V x (a); x /= s; return x;)},
+        {"operator/=(T)", DIV, VS, C04_L (V x (a); return V (x /= s);)},
         {"operator-(unary)", NEG, UN, C04_L (return V (-a);)},
-        {"negate()", NEG, UN, C04_L (V x (a); x.negate (); return x;)},
+        {"negate()", NEG, UN, C04_L (V x (a); return V (x.negate ());)},
     };
 }
 
@@ -338,16 +339,16 @@ template <class V> inline std::vector<Sp<V>> quat_spellings ()
     typedef typename V::BaseType T;
     return {
         {"operator+", ADD, VV, C04_L (return V (a + b);)},
-        {"operator+=", ADD, VV, C04_L (V x (a); x += b; return x;)},
-        {"operator+=(self)", ADD, SELF, C04_L (V x (a); x += x; return x;)},
+        {"operator+=", ADD, VV, C04_L (V x (a); return V (x += b);)},
+        {"operator+=(self)", ADD, SELF, C04_L (V x (a); return V (x += x);)},
         {"operator-", SUB, VV, C04_L (return V (a - b);)},
-        {"operator-=", SUB, VV, C04_L (V x (a); x -= b; return x;)},
-        {"operator-=(self)", SUB, SELF, C04_L (V x (a); x -= x; return x;)},
+        {"operator-=", SUB, VV, C04_L (V x (a); return V (x -= b);)},
+        {"operator-=(self)", SUB, SELF, C04_L (V x (a); return V (x -= x);)},
         {"operator*(V,T)", MUL, VS, C04_L (return V (a * s);)},
-        {"operator*=(T)", MUL, VS, C04_L (V x (a); x *= s; return x;)},
+        {"operator*=(T)", MUL, VS, C04_L (V x (a); return V (x *= s);)},
         {"operator*(T,V)", MUL, SV, C04_L (return V (s * a);)},
         {"operator/(V,T)", DIV, VS, C04_L (return V (a / s);)},
-        {"operator/=(T)", DIV, VS, C04_L (V x (a); x /= s; return x;)},
+        {"operator/=(T)", DIV, VS, C04_L (V x (a); return V (x /= s);)},
         {"operator-(unary)", NEG, UN, C04_L (return V (-a);)},
         {"operator~", CONJ, UN, C04_L (return V (~a);)},
     };
@@ -359,20 +360,20 @@ template <class V> inline std::vector<Sp<V>> matrix_spellings ()
     typedef typename V::BaseType T;
     return {
         {"operator+", ADD, VV, C04_L (return V (a + b);)},
-        {"operator+=", ADD, VV, C04_L (V x (a); x += b; return x;)},
-        {"operator+=(self)", ADD, SELF, C04_L (V x (a); x += x; return x;)},
+        {"operator+=", ADD, VV, C04_L (V x (a); return V (x += b);)},
+        {"operator+=(self)", ADD, SELF, C04_L (V x (a); return V (x += x);)},
         {"operator-", SUB, VV, C04_L (return V (a - b);)},
-        {"operator-=", SUB, VV, C04_L (V x (a); x -= b; return x;)},
-        {"operator-=(self)", SUB, SELF, C04_L (V x (a); x -= x; return x;)},
-        {"operator+=(T)", ADD, VS, C04_L (V x (a); x += s; return x;)},
-        {"operator-=(T)", SUB, VS, C04_L (V x (a); x -= s; return x;)},
+        {"operator-=", SUB, VV, C04_L (V x (a); return V (x -= b);)},
+        {"operator-=(self)", SUB, SELF, C04_L (V x (a); return V (x -= x);)},
+        {"operator+=(T)", ADD, VS, C04_L (V x (a); return V (x += s);)},
+        {"operator-=(T)", SUB, VS, C04_L (V x (a); return V (x -= s);)},
         {"operator*(V,T)", MUL, VS, C04_L (return V (a * s);)},
-        {"operator*=(T)", MUL, VS, C04_L (V x (a); x *= s; return x;)},
+        {"operator*=(T)", MUL, VS, C04_L (V x (a); return V (x *= s);)},
         {"operator*(T,V)", MUL, SV, C04_L (return V (s * a);)},
         {"operator/(V,T)", DIV, VS, C04_L (return V (a / s);)},
-        {"operator/=(T)", DIV, VS, C04_L (V x (a); x /= s; return x;)},
+        {"operator/=(T)", DIV, VS, C04_L (V x (a); return V (x /= s);)},
         {"operator-(unary)", NEG, UN, C04_L (return V (-a);)},
-        {"negate()", NEG, UN, C04_L (V x (a); x.negate (); return x;)},
+        {"negate()", NEG, UN, C04_L (V x (a); return V (x.negate ());)},
     };
 }
 
@@ -669,7 +670,7 @@ template <class V> struct ApproxCheck<V, true>
         {
             abs_lo = T (0); abs_hi = T (2); rel_lo = T (0); rel_hi = T (1); // |x| >= 1 in both operands
         }
-        c.eval (8);
+        c.eval (10);
         if (va.equalWithAbsError (vb, abs_lo) || vb.equalWithAbsError (va, abs_lo)) c.fail ("equalWithAbsError." + Tr<V>::name () + ":" + sl, idx, d);
         if (!va.equalWithAbsError (vb, abs_hi) || !vb.equalWithAbsError (va, abs_hi)) c.fail ("equalWithAbsError." + Tr<V>::name () + ":" + sl + ".below_tolerance", idx, d);
         if (va.equalWithRelError (vb, rel_lo) || vb.equalWithRelError (va, rel_lo)) c.fail ("equalWithRelError." + Tr<V>::name () + ":" + sl, idx, d);
@@ -764,10 +765,10 @@ inline std::vector<std::string> eq_classes (bool fp, bool approx)
 } // namespace c04
 
 // case counts (per aggregate type x element type)
-#define C04_OPS_Q 100000
-#define C04_OPS_T 10000000
-#define C04_EQ_Q 40000
-#define C04_EQ_T 2000000
+#define C04_OPS_Q 300000
+#define C04_OPS_T 20000000
+#define C04_EQ_Q 100000
+#define C04_EQ_T 4000000
 
 #define C04_REG_OPS(V, tag)                                                                                         \
     MON_SUB_IDX (c04::run_ops<V>, "ops_" tag, C04_OPS_Q, C04_OPS_T)                                                  \
